@@ -9,4 +9,9 @@ func init() {
 	runners["C02"] = func(module string, seed int64, tier string, d *hx.Driver, replay []string) *hx.Result {
 		return c02.Run(c02.Config{Module: module, Seed: seed, Tier: tier, Driver: d, Replay: replay})
 	}
+	// property C07 through the generated bindings of the resources that declare read-only /
+	// create-only fields (c02/excl.go); an extra run of bin/checks.d/C07.json
+	runners["C07G"] = func(module string, seed int64, tier string, d *hx.Driver, replay []string) *hx.Result {
+		return c02.RunExcluded(c02.Config{Module: module, Seed: seed, Tier: tier, Driver: d, Replay: replay})
+	}
 }
